@@ -67,10 +67,9 @@ VARIANTS = [
                 "new": "    def _private_tree(self, val):\n        if isinstance(val, bytes):\n            return llsd.parse(val)\n"
                        "        return copy.deepcopy(val)\n\n    def deserialize(self,"}]},
     {"name": "P1 loop variables renamed in deserialize", "file": MSGSER, "expect": "silent",
-     "old": "        for block, tmpl_var in self._yield_vars(llsd_val):\n            val = block[tmpl_var.name]\n"
-            "            block[tmpl_var.name] = LLSDDataPacker.unpack(val, tmpl_var.type)\n",
-     "new": "        for blk, tvar in self._yield_vars(llsd_val):\n"
-            "            blk[tvar.name] = LLSDDataPacker.unpack(blk[tvar.name], tvar.type)\n"},
+     "old": "        for block, tmpl_var in self._yield_vars(llsd_val):\n            val = block[tmpl_var.name]\n            if tmpl_var.type in _BINARY_PACKED and not isinstance(val, bytes):\n                # Only the <binary> form needs unpacking. Other implementations (OpenSim) write\n                # the values that fit as plain LLSD integers / strings, those are usable as-is.\n                continue\n            block[tmpl_var.name] = LLSDDataPacker.unpack(val, tmpl_var.type)\n",
+     "new": "        for blk, tvar in self._yield_vars(llsd_val):\n            if tvar.type in _BINARY_PACKED and not isinstance(blk[tvar.name], bytes):\n"
+            "                continue\n            blk[tvar.name] = LLSDDataPacker.unpack(blk[tvar.name], tvar.type)\n"},
     {"name": "P1 reorder LLSD SPECS rows", "file": PACK, "expect": "silent",
      "old": "        MsgType.MVT_U64: _make_struct_spec('!Q'),\n        MsgType.MVT_S64: _make_struct_spec('!q'),\n",
      "new": "        MsgType.MVT_S64: _make_struct_spec('!q'),\n        MsgType.MVT_U64: _make_struct_spec('!Q'),\n"},
@@ -295,29 +294,14 @@ VARIANTS = [
      "new": "            return [c for c in x.data(needed_elems)[:needed_elems]]\n"},
     {"name": "R1 conversion loop in a helper, deserialize hands it a shallow copy", "expect": "C12.R1",
      "edits": [{"file": MSGSER, "old": "            llsd_val = copy.deepcopy(llsd_val)\n", "new": "            llsd_val = dict(llsd_val)\n"},
-               {"file": MSGSER,
-                "old": "        for block, tmpl_var in self._yield_vars(llsd_val):\n            val = block[tmpl_var.name]\n"
-                       "            block[tmpl_var.name] = LLSDDataPacker.unpack(val, tmpl_var.type)\n",
-                "new": "        self._apply(llsd_val, LLSDDataPacker.unpack)\n"},
-               {"file": MSGSER, "old": "    def can_handle(self,",
-                "new": "    def _apply(self, tree, conv):\n        for blk, tv in self._yield_vars(tree):\n"
-                       "            blk[tv.name] = conv(blk[tv.name], tv.type)\n\n    def can_handle(self,"}]},
+               {"file": MSGSER, "old": "        for block, tmpl_var in self._yield_vars(llsd_val):\n            val = block[tmpl_var.name]\n            if tmpl_var.type in _BINARY_PACKED and not isinstance(val, bytes):\n                # Only the <binary> form needs unpacking. Other implementations (OpenSim) write\n                # the values that fit as plain LLSD integers / strings, those are usable as-is.\n                continue\n            block[tmpl_var.name] = LLSDDataPacker.unpack(val, tmpl_var.type)\n", "new": "        self._apply(llsd_val, LLSDDataPacker.unpack, keep_plain=True)\n"},
+               {"file": MSGSER, "old": "    def can_handle(self,", "new": "    def _apply(self, tree, conv, keep_plain=False):\n        for blk, tv in self._yield_vars(tree):\n            if keep_plain and tv.type in _BINARY_PACKED and not isinstance(blk[tv.name], bytes):\n                continue\n            blk[tv.name] = conv(blk[tv.name], tv.type)\n\n    def can_handle(self,"}]},
     {"name": "P1 conversion loop in a helper handed the converter", "expect": "silent",
-     "edits": [{"file": MSGSER,
-                "old": "        for block, tmpl_var in self._yield_vars(llsd_val):\n            val = block[tmpl_var.name]\n"
-                       "            block[tmpl_var.name] = LLSDDataPacker.unpack(val, tmpl_var.type)\n",
-                "new": "        self._apply(llsd_val, LLSDDataPacker.unpack)\n"},
-               {"file": MSGSER, "old": "    def can_handle(self,",
-                "new": "    def _apply(self, tree, conv):\n        for blk, tv in self._yield_vars(tree):\n"
-                       "            blk[tv.name] = conv(blk[tv.name], tv.type)\n\n    def can_handle(self,"}]},
+     "edits": [{"file": MSGSER, "old": "        for block, tmpl_var in self._yield_vars(llsd_val):\n            val = block[tmpl_var.name]\n            if tmpl_var.type in _BINARY_PACKED and not isinstance(val, bytes):\n                # Only the <binary> form needs unpacking. Other implementations (OpenSim) write\n                # the values that fit as plain LLSD integers / strings, those are usable as-is.\n                continue\n            block[tmpl_var.name] = LLSDDataPacker.unpack(val, tmpl_var.type)\n", "new": "        self._apply(llsd_val, LLSDDataPacker.unpack, keep_plain=True)\n"},
+               {"file": MSGSER, "old": "    def can_handle(self,", "new": "    def _apply(self, tree, conv, keep_plain=False):\n        for blk, tv in self._yield_vars(tree):\n            if keep_plain and tv.type in _BINARY_PACKED and not isinstance(blk[tv.name], bytes):\n                continue\n            blk[tv.name] = conv(blk[tv.name], tv.type)\n\n    def can_handle(self,"}]},
     {"name": "R1 helper is handed the wrong converter", "expect": "C12.R1",
-     "edits": [{"file": MSGSER,
-                "old": "        for block, tmpl_var in self._yield_vars(llsd_val):\n            val = block[tmpl_var.name]\n"
-                       "            block[tmpl_var.name] = LLSDDataPacker.unpack(val, tmpl_var.type)\n",
-                "new": "        self._apply(llsd_val, LLSDDataPacker.pack)\n"},
-               {"file": MSGSER, "old": "    def can_handle(self,",
-                "new": "    def _apply(self, tree, conv):\n        for blk, tv in self._yield_vars(tree):\n"
-                       "            blk[tv.name] = conv(blk[tv.name], tv.type)\n\n    def can_handle(self,"}]},
+     "edits": [{"file": MSGSER, "old": "        for block, tmpl_var in self._yield_vars(llsd_val):\n            val = block[tmpl_var.name]\n            if tmpl_var.type in _BINARY_PACKED and not isinstance(val, bytes):\n                # Only the <binary> form needs unpacking. Other implementations (OpenSim) write\n                # the values that fit as plain LLSD integers / strings, those are usable as-is.\n                continue\n            block[tmpl_var.name] = LLSDDataPacker.unpack(val, tmpl_var.type)\n", "new": "        self._apply(llsd_val, LLSDDataPacker.pack, keep_plain=True)\n"},
+               {"file": MSGSER, "old": "    def can_handle(self,", "new": "    def _apply(self, tree, conv, keep_plain=False):\n        for blk, tv in self._yield_vars(tree):\n            if keep_plain and tv.type in _BINARY_PACKED and not isinstance(blk[tv.name], bytes):\n                continue\n            blk[tv.name] = conv(blk[tv.name], tv.type)\n\n    def can_handle(self,"}]},
     {"name": "P1 IP row as a two-field NamedTuple in both tables", "expect": "silent",
      "edits": [{"file": PACK, "old": "def _pack_string(pack_string):",
                 "new": "class Pair(NamedTuple):\n    unpacker: Callable\n    packer: Callable\n\n\ndef _pack_string(pack_string):"},
@@ -425,7 +409,7 @@ VARIANTS = [
                {"file": LLSD, "old": "        return b'b' + struct.pack('!i', len(something)) + something\n",
                 "new": "        return b'b' + _LEN.pack(len(something)) + something\n"}]},
     {"name": "P1 converted slot addressed through a local", "file": MSGSER, "expect": "silent",
-     "old": "            val = block[tmpl_var.name]\n            block[tmpl_var.name] = LLSDDataPacker.unpack(val, tmpl_var.type)\n",
+     "old": "            block[tmpl_var.name] = LLSDDataPacker.unpack(val, tmpl_var.type)\n",
      "new": "            slot = tmpl_var.name\n            block[slot] = LLSDDataPacker.unpack(block[slot], tmpl_var.type)\n"},
     # ------------------------------------------------------------------ round 8
     {"name": "R7 third-party notation parser shared at module level", "expect": "C12.R7",
@@ -490,6 +474,32 @@ VARIANTS = [
     {"name": "P9 DATETIME handler normalises through utctimetuple", "file": LLSD, "expect": "silent",
      "old": "            v = v.astimezone(datetime.timezone.utc).replace(tzinfo=None)\n",
      "new": "            v = datetime.datetime(*v.utctimetuple()[:6], v.microsecond)\n"},
+    # ------------------------------------------------------------------ audit round 2 (anchored on the FIXED text)
+    {"name": "R10 pretty formatter no longer escapes map keys (fix reverted)", "file": LLSD, "expect": "C12.R10",
+     "old": "    def _elt(self, name, contents=None):\n        # Unlike MAP(), PRETTY_MAP() hands over its keys as unescaped strs\n"
+            "        if name == b'key' and isinstance(contents, str):\n            contents = self.xml_esc(contents)\n"
+            "        return super()._elt(name, contents)\n",
+     "new": ""},
+    {"name": "R10 pretty formatter escapes the wrong element", "file": LLSD, "expect": "C12.R10",
+     "old": "        if name == b'key' and isinstance(contents, str):\n", "new": "        if name == b'string' and isinstance(contents, str):\n"},
+    {"name": "P10 key escaping with the type test first", "file": LLSD, "expect": "silent",
+     "old": "        if name == b'key' and isinstance(contents, str):\n", "new": "        if isinstance(contents, str) and name == b'key':\n"},
+    # ------------------------------------------------------------------ refactor round 8 twins
+    {"name": "P10 carriage-return escaping in a shared mixin with module constants", "expect": "silent",
+     "edits": [{"file": LLSD, "old": "class HippoLLSDXMLFormatter(base_llsd.serde_xml.LLSDXMLFormatter, HippoLLSDBaseFormatter):\n",
+                "new": "_RAW_CR = b\"\\r\"\n_CR_REF = b\"&#13;\"\n\n\nclass _EscapeCR:\n    def xml_esc(self, v):\n"
+                       "        out = super().xml_esc(v)\n        return out.replace(_RAW_CR, _CR_REF)\n\n\n"
+                       "class HippoLLSDXMLFormatter(_EscapeCR, base_llsd.serde_xml.LLSDXMLFormatter, HippoLLSDBaseFormatter):\n"},
+               {"file": LLSD, "old": "    def xml_esc(self, v):\n        # XML parsers normalize a literal CR (or CRLF) to LF, only a character reference survives\n"
+                                     "        return super().xml_esc(v).replace(b\"\\r\", b\"&#13;\")\n", "new": ""}]},
+    {"name": "P5 header stripped by a helper that returns the document or its tail", "expect": "silent",
+     "edits": [{"file": LLSD, "old": "def parse_binary(data: bytes):\n    if any(data.startswith(x) for x in _BINARY_HEADERS):\n        data = data.split(b'\\n', 1)[1]\n",
+                "new": "def _without_header(doc: bytes) -> bytes:\n    if any(doc.startswith(h) for h in _BINARY_HEADERS):\n"
+                       "        return doc.split(b'\\n', 1)[1]\n    return doc\n\n\ndef parse_binary(data: bytes):\n    data = _without_header(data)\n"}]},
+    {"name": "R5 header-stripping helper cuts at the first newline unconditionally", "expect": "C12.R5",
+     "edits": [{"file": LLSD, "old": "def parse_binary(data: bytes):\n    if any(data.startswith(x) for x in _BINARY_HEADERS):\n        data = data.split(b'\\n', 1)[1]\n",
+                "new": "def _without_header(doc: bytes) -> bytes:\n    if b'\\n' in doc:\n"
+                       "        return doc.split(b'\\n', 1)[1]\n    return doc\n\n\ndef parse_binary(data: bytes):\n    data = _without_header(data)\n"}]},
     # ------------------------------------------------------------------ documented limits
     {"name": "X quaternion packed with two components (count still accepted by the constructor)", "file": PACK, "expect": "miss",
      "old": "MsgType.MVT_LLQuaternion: _make_llsd_tuplecoord_spec(Quaternion, needed_elems=3)",
